@@ -3,6 +3,7 @@ module verif/harness
 go 1.24.0
 
 require (
+	github.com/itchyny/go-yaml v0.0.0-20251001235044-fca9a0999f15
 	github.com/itchyny/gojq v0.0.0
 	github.com/mattn/go-runewidth v0.0.19
 )
